@@ -815,6 +815,11 @@ func c02RealWALSpecs(thorough bool) []rwSpec {
 // It returns false if some part did not complete.
 func c02RealWAL(r *ev.Run, exe, work string) bool {
 	specs := c02RealWALSpecs(r.Thorough())
+	r.Assume(
+		"real-WAL family: one validator of a directed base schedule (happy path, B3, B4, B5) runs over the real consensus/wal.go on crashfs; crash model as in C03: directory operations durable once issued, file data durable up to the last Sync, any byte prefix of the un-synced suffix of each WAL file may survive, plus (size metadata durable before payload data) a zero-filled tail confined to the payload of the last surviving record whose header is intact",
+		"real-WAL family: crash positions = after every file-system call and after every network send of every step of the chosen validator (reconstructed from the crashfs call log and the recorded send order; cross-checked against real crashfs.FailAfter cuts); after a restart the rest of the validator's recorded wire events is delivered; the other validators behave as in the base run; up to 2 (thorough: 3 on the happy path) crash generations",
+		"real-WAL family: height 1 only - a validator that has finalized is terminal (the harness's block store does not survive a restart); housekeeping of wal.go never runs (HousekeepingInterval 1000 h): rotation is C03's business",
+	)
 	results := make([]*rwResult, len(specs))
 	ev.Par(len(specs), 16, func(i int) {
 		spec := specs[i]
